@@ -4,24 +4,16 @@ import (
 	"fmt"
 	"testing"
 
-	"github.com/apmckinlay/gsuneido/compile"
+	"github.com/apmckinlay/gsuneido/core"
 )
 
-func TestDbgFold(t *testing.T) {
-	v := compile.Constant("10000000000000000")
-	fmt.Printf("%T %v\n", v, v)
-	for _, s := range []string{
-		`function (a, b) { a $ b }`,
-		`function (a, b) { (a) $ b $ b }`,
-		`function (a, b) { 10000000000000000 $ b }`,
-		`function (a, b) { (10000000000000000) $ b $ b }`,
-		`function (a, b) { x = 10000000000000000; x }`,
-		`function (a, b) { 10000000000000000 }`,
-		`function (a, b) { 10000000000000000 $ "" }`,
-		`function (a, b) { 1e16 $ "" }`,
-		`function (a, b) { a + 0 }`,
-	} {
-		r := compileAndCall(s, v, compile.Constant(`""`))
-		fmt.Printf("%s => %v  %T\n", s, r, r.v)
+func TestDbgKeys(t *testing.T) {
+	for _, k := range []string{"?", "!", "_", "default", "true", "false", "is", "function", "class", "if", "a?", "a!", "_a", "__a", "_1", "A", "in", "not", "and", "or", "it", "this", "super", "return", "a_", "try", "catch"} {
+		ob := &core.SuObject{}
+		ob.Set(core.SuStr(k), core.IntVal(1))
+		txt := ob.String()
+		r := compileConst(txt)
+		ok := !r.failed() && deepEqual(r.v, ob)
+		fmt.Printf("%-10q %-20s ok=%v %v\n", k, txt, ok, r)
 	}
 }
